@@ -78,6 +78,8 @@ pub enum PosSel {
     Before(u16),
     /// the all-zero id (the smallest there is), if it is still free
     IdZero,
+    /// the all-ones id (the greatest there is), if it is still free
+    IdMax,
 }
 
 #[derive(Clone, Debug, PartialEq, Serialize, Deserialize)]
@@ -578,7 +580,7 @@ pub fn op_strategy(p: &Profile) -> BoxedStrategy<Op> {
     let register = ttl_any().prop_map(|ttl| Op::Register { ttl });
     let register_in = ctx_sel(p).prop_map(|ctx| Op::RegisterIn { ctx });
     let import = prop_oneof![
-        6 => (topic_of(p), ctx_sel(p), ttl_persistent(), meta_opt(p.meta), any::<bool>(), prop_oneof![24 => pos_sel(), 1 => Just(PosSel::IdZero)])
+        6 => (topic_of(p), ctx_sel(p), ttl_persistent(), meta_opt(p.meta), any::<bool>(), prop_oneof![24 => pos_sel(), 1 => Just(PosSel::IdZero), 1 => Just(PosSel::IdMax)])
             .prop_map(|(topic, ctx, ttl, meta, hash, pos)| ImportOp::Fresh { topic, ctx, ttl, meta, hash, pos }),
         2 => any::<u16>().prop_map(ImportOp::Again),
         3 => any::<u16>().prop_map(ImportOp::Back),
@@ -1160,6 +1162,12 @@ impl Interp {
                     return 0;
                 }
                 1 << 92
+            }
+            PosSel::IdMax => {
+                if !taken(u128::MAX) {
+                    return u128::MAX;
+                }
+                1 << 93
             }
         };
         while taken(v) || v == 0 {
